@@ -2,7 +2,7 @@
 """Copy confirmed seeded changes from /tmp/seeded_out into /verif/seeded/<ID>-<k>/."""
 import os, re, json, shutil, glob, sys
 DET = json.load(open('/verif/seeded/detected.json')) if os.path.exists('/verif/seeded/detected.json') else {}
-for d in sorted(glob.glob('/tmp/seeded_out/C*')):
+for d in sorted([x for x in glob.glob('/tmp/seeded_out/*') if re.search(r'/(R\d)?C\d\d$', x)]):
     pid = os.path.basename(d)
     for v in sorted(glob.glob(f'{d}/verify_*.txt')):
         k = re.search(r'verify_(\d+)\.txt$', v).group(1)
@@ -10,7 +10,7 @@ for d in sorted(glob.glob('/tmp/seeded_out/C*')):
         if 'RESULT confirmed' not in log:
             print('not confirmed', pid, k); continue
         # second-round seeds (directory R2Cxx) are numbered on from the first round
-        if pid.startswith('R2'):
+        if pid[0] == 'R':  # R2Cxx / R3Cxx: later rounds are numbered on from the first round
             key = f'{pid[2:]}-{int(k)+2}'
             prop = pid[2:]
         else:
